@@ -513,6 +513,139 @@ Section WithHash.
     exists HA, o, d, m, a, HB, pre, p, au, rest. repeat (split; [assumption|]).
     intros Hr. apply state_ready_iff in Hr. rewrite <- sat_add_u32_spec by lia. lia.
   Qed.
+  (* ---------------- end to end: effect => scheduled by a signing proposer, elapsed, consumed ---------------- *)
+  Theorem self_admin_call_was_scheduled : forall n0 md props execs adm s0 cs c s' r,
+    2 <= n0 <= MAXU32 -> construct cf n0 md props execs adm = Ok s0 ->
+    let s := run s0 cs in
+    step_ok s c = Ok (s', r) -> admin (acs s) = Some (self cf) -> self_admin_call c ->
+    consumes s c s' /\
+    exists se m rest0,
+      a_self (authz_of c) = Some se /\ se_metas se = m :: rest0 /\
+      let o := Op (self cf) (fn_of c) (aid (argv_of c)) (m_pred m) (m_salt m) in
+      state_of (ctl s) (hash o) = Ready /\ state_of (ctl s') (hash o) = Done /\
+      exists Ha o' d mm at_ Hb pre p au rest,
+        chist s0 cs = Ha ++ HE (Schedule o' d) at_ (Some mm) true :: Hb /\ hash o' = hash o /\
+        ((forall a b, hash a = hash b -> a = b) -> o' = o) /\ mm <= d /\
+        (forall x, In x Hb -> subject hash (he_call x) = Some (hash o) -> he_ok x = false) /\
+        cs = pre ++ ScheduleOp o' d p au :: rest /\
+        snd (step (run s0 pre) (ScheduleOp o' d p au)) <> Fail /\
+        holds (acs (run s0 pre)) p PROPOSER = true /\
+        (p <> self cf -> has_auth (a_plain au) p = true) /\
+        now (ctl (run s0 pre)) = at_ /\ min_delay (ctl (run s0 pre)) = Some mm /\
+        Z.min (at_ + d) MAXU32 <= now (ctl s).
+  Proof.
+    intros n0 md props execs adm s0 cs c s' r Hn Hc s H Hadm Hself.
+    pose proof (self_admin_call_consumes s c s' r H Hadm Hself) as Hcons. split; [exact Hcons|].
+    destruct Hcons as (se & m & rest0 & H1 & H2 & H3 & H4 & H5). cbv zeta in H5. destruct H5 as (Hrd & Hdn & _).
+    exists se, m, rest0. split; [exact H1|]. split; [exact H3|]. cbv zeta. split; [exact Hrd|]. split; [exact Hdn|].
+    destruct (pending_op_was_scheduled_by_proposer n0 md props execs adm s0 cs _ Hn Hc (or_intror Hrd))
+      as (Ha & o' & d & mm & at_ & Hb & pre & p & au & rest & E1 & E2 & E3 & E4 & E5 & E6 & E7 & E8 & E9 & E10 & E11).
+    exists Ha, o', d, mm, at_, Hb, pre, p, au, rest.
+    split; [exact E1|]. split; [exact E2|]. split; [intros Hinj; apply Hinj; exact E2|]. split; [exact E3|]. split; [exact E4|].
+    split; [exact E5|]. split; [exact E6|]. split; [exact E7|]. split; [exact E8|]. split; [exact E9|]. split; [exact E10|].
+    apply E11. exact Hrd.
+  Qed.
+
+  (* ---------------- the admin offer that accept_admin_transfer completes was made by transfer_admin_role ---------------- *)
+  Lemma tset_tval {V} c nw (p : option (tentry V)) v : exists en, tset c nw p v = Some en /\ tval en = v.
+  Proof. unfold tset. destruct (tlive_at nw p); eexists; split; reflexivity. Qed.
+  Lemma textend_tval {V} c nw (en : tentry V) thr ext e :
+    textend c nw (Some en) thr ext = Ok (Some e) -> tval e = tval en.
+  Proof.
+    unfold textend. destruct (ext <? thr); [discriminate|].
+    destruct (tlive_at nw (Some en)) as [en'|] eqn:E; [|discriminate].
+    unfold tlive_at in E. destruct (tlive en <? nw); [discriminate|]. inversion E; subst en'.
+    destruct (max_ttl c - 1 <? ext); [discriminate|].
+    destruct ((tlive en - nw <=? thr) && (tlive en <? nw + ext)); intros H; inversion H; reflexivity.
+  Qed.
+  Lemma transfer_role_tval hc nw p new lu e : transfer_role hc nw p new lu = Ok (Some e) -> tval e = new.
+  Proof.
+    unfold transfer_role. destruct (lu =? 0).
+    - destruct (tget nw p) as [pa|]; [|discriminate]. destruct (N.eqb pa new); discriminate.
+    - destruct (_ || _); [discriminate|].
+      destruct (tset_tval hc nw p new) as (en & -> & Hv). intros H. apply textend_tval in H. congruence.
+  Qed.
+
+  Lemma pending_step s c s' r :
+    step_ok s c = Ok (s', r) ->
+    (exists new lu au p, c = TransferAdmin new lu au /\
+        transfer_role (hcfg cf) (now (ctl s)) (pending (acs s)) new lu = Ok p /\ pending (acs s') = p)
+    \/ (exists au, c = AcceptAdmin au /\ pending (acs s') = None)
+    \/ pending (acs s') = pending (acs s).
+  Proof.
+    intros H. destruct (step_spec hash aid cf _ _ _ _ H) as (pairs & s1 & _ & (Ha & _) & Ho).
+    destruct c as [o d p au|o x tgt au|j k au|d au|a ro k au|a ro k au|ro k au|ro ar au|new lu au|au|au|metas ctxs xa|n];
+      cbn [own_effect] in Ho.
+    - right. right. destruct Ho as (_ & t & _ & -> & _). cbn. rewrite Ha. reflexivity.
+    - right. right. destruct Ho as (_ & t & _ & _ & _ & -> & _). cbn. rewrite Ha. reflexivity.
+    - right. right. destruct Ho as (_ & t & _ & -> & _). cbn. rewrite Ha. reflexivity.
+    - right. right. destruct Ho as (_ & -> & _). cbn. rewrite Ha. reflexivity.
+    - right. right. destruct Ho as (_ & a' & Hg & -> & _). apply grant_no_auth_frame in Hg. cbn. apply Hg.
+    - right. right. destruct Ho as (_ & a' & Hg & -> & _). apply revoke_no_auth_frame in Hg. cbn. apply Hg.
+    - right. right. destruct Ho as (a' & Hg & -> & _). apply revoke_no_auth_frame in Hg. cbn. apply Hg.
+    - right. right. destruct Ho as (-> & _). reflexivity.
+    - left. destruct Ho as (p & Ht & -> & _). exists new, lu, au, p. auto.
+    - right. left. destruct Ho as (pa & _ & -> & _). exists au. auto.
+    - right. right. destruct Ho as (_ & -> & _). reflexivity.
+    - right. right. destruct Ho as (-> & _). rewrite Ha. reflexivity.
+    - right. right. destruct Ho as (_ & _ & -> & _). cbn. rewrite Ha. reflexivity.
+  Qed.
+
+  Lemma pending_origin cs : forall s e,
+    pending (acs (run s cs)) = Some e ->
+    (exists e0, pending (acs s) = Some e0 /\ tval e0 = tval e) \/
+    exists pre lu au rest, cs = pre ++ TransferAdmin (tval e) lu au :: rest /\
+                           snd (step (run s pre) (TransferAdmin (tval e) lu au)) <> Fail.
+  Proof.
+    induction cs as [|c cs IH]; intros s e He.
+    - left. exists e. auto.
+    - unfold TimelockController.run in He. cbn [fold_left] in He. fold (run (fst (step s c)) cs) in He.
+      destruct (IH _ _ He) as [(e0 & Hp & Ht)|(pre & lu & au & rest & -> & Hok)].
+      + rewrite step_unfold in Hp. destruct (step_ok s c) as [[s1 r]|] eqn:E; cbn [fst] in Hp.
+        * destruct (pending_step _ _ _ _ E) as [(new & lu & au & p & -> & Htr & Hps)|[(au & -> & Hps)|Hps]].
+          -- right. rewrite Hps in Hp. subst p. apply transfer_role_tval in Htr. rewrite Ht in Htr. subst new.
+             exists [], lu, au, cs. split; [reflexivity|]. cbn [TimelockController.run fold_left]. rewrite step_unfold, E. discriminate.
+          -- rewrite Hps in Hp. discriminate.
+          -- left. exists e0. rewrite <- Hps. auto.
+        * left. exists e0. auto.
+      + right. exists (c :: pre), lu, au, rest. split; [reflexivity|]. exact Hok.
+  Qed.
+
+  Theorem accepted_admin_was_offered : forall n0 md props execs adm s0 cs au s' r,
+    construct cf n0 md props execs adm = Ok s0 ->
+    let s := run s0 cs in
+    step_ok s (AcceptAdmin au) = Ok (s', r) ->
+    exists pa pre lu au' rest,
+      admin (acs s') = Some pa /\ (pa <> self cf -> has_auth (a_plain au) pa = true) /\
+      cs = pre ++ TransferAdmin pa lu au' :: rest /\
+      snd (step (run s0 pre) (TransferAdmin pa lu au')) <> Fail /\
+      (admin (acs (run s0 pre)) = Some (self cf) ->
+       consumes (run s0 pre) (TransferAdmin pa lu au') (fst (step (run s0 pre) (TransferAdmin pa lu au')))).
+  Proof.
+    intros n0 md props execs adm s0 cs au s' r Hc s H.
+    pose proof H as H0. apply accept_admin_spec in H0. destruct H0 as (ad & pa & s1 & _ & Hp & (pairs & Hsp & _) & -> & _).
+    unfold tget in Hp. destruct (tlive_at (now (ctl s)) (pending (acs s))) as [en|] eqn:El; [|discriminate].
+    injection Hp as Hp. unfold tlive_at in El. destruct (pending (acs s)) as [e|] eqn:Ep; [|discriminate].
+    destruct (tlive e <? now (ctl s)); [discriminate|]. injection El as <-.
+    destruct (pending_origin cs s0 e Ep) as [(e0 & Hp0 & _)|(pre & lu & au' & rest & Hcs & Hok)].
+    - exfalso. unfold construct in Hc.
+      destruct (grant_all cf _ props _) as [a1|] eqn:E1; cbn [bind] in Hc; [|discriminate].
+      destruct (grant_all cf a1 execs _) as [a2|] eqn:E2; cbn [bind] in Hc; [|discriminate].
+      destruct (set_min_delay _ _); cbn [bind] in Hc; [|discriminate]. inversion Hc; subst s0. cbn [acs] in Hp0.
+      assert (G : forall l rs q q', grant_all cf q l rs = Ok q' -> pending q' = pending q).
+      { induction l as [|x l IHl]; intros rs q q' Hg; cbn [grant_all] in Hg; [inversion Hg; reflexivity|].
+        match type of Hg with context [bind ?e _] => destruct e as [q3|] eqn:E3 end; cbn [bind] in Hg; [|discriminate].
+        rewrite (IHl _ _ _ Hg). clear Hg IHl. revert q q3 E3. induction rs as [|r0 rs IHr]; intros q q3 E3; [inversion E3; reflexivity|].
+        destruct (grant_no_auth (max_roles cf) q x r0) as [q4|] eqn:G4; cbn [bind] in E3; [|discriminate].
+        rewrite (IHr _ _ E3). apply grant_no_auth_frame in G4. apply G4. }
+      rewrite (G _ _ _ _ E2), (G _ _ _ _ E1) in Hp0. discriminate.
+    - rewrite Hp in *. exists pa, pre, lu, au', rest. cbn [with_acs acs admin]. split; [reflexivity|]. split.
+      + intros Hk. unfold auth_spec in Hsp. replace (N.eqb pa (self cf)) with false in Hsp by (symmetry; apply N.eqb_neq; exact Hk).
+        apply Hsp.
+      + split; [exact Hcs|]. split; [exact Hok|]. intros Hadm.
+        rewrite step_unfold in Hok |- *. destruct (step_ok (run s0 pre) (TransferAdmin pa lu au')) as [[s2 r2]|] eqn:E2; [|contradiction].
+        cbn [fst]. apply (self_admin_call_consumes _ _ _ _ E2 Hadm). exact I.
+  Qed.
 End WithHash.
 
 (* ---------------- the defect before fix fd487bd ---------------- *)
